@@ -672,11 +672,11 @@ def run(ctx):
         # coqchk re-validates the meta-theory (soundness of the analysis for every program / oracle, history lemmas).  The
         # instance files are not given to coqchk: their vm_compute steps (closed sets of ~10^4 abstract states) are checked
         # by coqc's kernel on every build, and coqchk has no VM (it would re-run them with lazy conversion for hours).
-        rc, out, err = core.sh(["timeout", "900", "coqchk", "-silent", "-o", "-Q", ".", "ZV", "ZV.Mem.AllocSetProofs", "ZV.Mem.AllocHistory"], cwd=core.COQ)
+        rc, out, err = core.sh(["timeout", "900", "coqchk", "-silent", "-o", "-Q", ".", "ZV", "ZV.Mem.AllocSetProofs", "ZV.Mem.AllocHistory", "ZV.Mem.AllocHistoryG"], cwd=core.COQ)
         txt = " ".join((out + err).split())
         ctx.notes["coqchk"] = txt[-400:]
         if rc != 0 or "Axioms: <none>" not in txt:
-            ctx.violation(dict(kind="coqchk", rc=rc, output=txt[-2000:]), what="coqchk does not validate the C13 meta-theory (AllocSetProofs, AllocHistory) axiom-free", no_input=True)
+            ctx.violation(dict(kind="coqchk", rc=rc, output=txt[-2000:]), what="coqchk does not validate the C13 meta-theory (AllocSetProofs, AllocHistory, AllocHistoryG) axiom-free", no_input=True)
     b.report_ties()
     ctx.cov["exhaustive"] = False
     ctx.assumptions += [
